@@ -1,4 +1,4 @@
-from props.smtpcommon import project, shrink_candidates  # noqa: F401
+from props.smtpcommon import post, project, shrink_candidates  # noqa: F401
 
 ID = "C06"
 LEVEL = "proof"
